@@ -58,7 +58,8 @@ DedupInsert(d, x, cap) ==
      sent, ev  history: written messages, emitted events
      nAcc      history: accepted ring insertions so far
      evAt      history: op -> nAcc when its OperationReceived was emitted last (0 = never)
-     sentAt    history: sequence of [x, at] for every Live(x) written                    *)
+     sentAt    history: sequence of [x, at] for every operation written to the remote
+               (Sync Operation or Live), `at` = nAcc at that moment                      *)
 
 NewSession(pc, live, nOut, failAt) ==
     [pc |-> pc, live |-> live, nOut |-> nOut, burstDone |-> (nOut = 0), cap |-> DedupCap,
@@ -105,7 +106,10 @@ Burst(p, k) ==
     THEN LET q == TrySend(p, Msg("Done", None)) IN
          IF q.ok THEN [q EXCEPT !.doneSent = TRUE, !.burstDone = TRUE] ELSE SyncErr(q)
     ELSE LET q == TrySend(p, Msg("Op", LocalOp(k))) IN
-         IF q.ok THEN Burst(Accept(q, LocalOp(k)), k + 1) ELSE SyncErr(q)
+         \* `dedup.insert(hash)` after the send (log_sync.rs:402): the window also remembers what was
+         \* SENT during sync; `sentAt` records the wire message for the at-most-once clause of C23
+         IF q.ok THEN Burst([Accept(q, LocalOp(k)) EXCEPT !.sentAt = Append(@, [x |-> LocalOp(k), at |-> q.nAcc + 1])], k + 1)
+         ELSE SyncErr(q)
 
 ---------------------------------------------------------------------------
 (* when is the process waiting for input                                   *)
@@ -387,6 +391,10 @@ C22_Lifecycle == \A s \in Sessions : Lifecycle(ss[s])
 \* once the connection has ended a session that cannot run any more has returned
 C22_NoHang == \A s \in Sessions : (rem[s].ended /\ ~Runnable(ss[s])) => ss[s].res # "run"
 C22_NoSpin == \A s \in Sessions : ss[s].res # "spin"
+\* C23 on a session that went through a sync phase first: the live-mode window is the buffer LogSync
+\* returns (operations received and sent during sync)
+C23_WireAtMostOnce == \A s \in Sessions : AtMostOnceInWindow(ss[s])
+C23_WireNeverBack == \A s \in Sessions : NeverBackToSource(ss[s])
 C22_SessionStartedFirst == \A s \in Sessions : SessionStartedFirst(ss[s])
 C22_LifecycleAfterStart == \A s \in Sessions : LifecycleAfterStart(ss[s])
 
